@@ -16,15 +16,27 @@ RULE = ("exhaustive: every event list of length <= 3 (quick; 5-event alphabet: r
         "responses) interleaved with own state changes (+ echo), lease losses (incl. failing retry), closed/failed watch "
         "streams, shutdown, queries of the package-level getters, failing starts (undecodable listing entry, failing Get, "
         "address that is no host:port), a second life; random-nonconforming (10%): records under a foreign key or marked "
-        "dead (model agreement only, the theorem's guard is off); direct: etcd.Node round trips and self-cluster "
+        "dead (model agreement only, the theorem's guard is off); SCRIPTED LIVES (one op = a whole provider life on a key space "
+        "with revisions whose every response is released by the script; an action that is not possible is a no-op, so a script is a "
+        "schedule for any request order): boot-startup-exhaustive: every sequence of <= 2 (thorough 3) mutations (register / "
+        "re-register with changed state+address / expire node 1, register node 2; also a stale record, the expiry and the echo of the "
+        "node itself; StartClient with <= 1 (2)) in EVERY position relative to [early watch registration] - listing evaluated - "
+        "[early delivery] - listing delivered - watch registered - fragment of 1 - rest; boot-rewatch-systematic: stream closed / "
+        "cancelled x after a fragment or not x gap (nothing / node 1 expires and returns / both other nodes expire) x compaction x mutation "
+        "after it x mutation while the listing is fetched again (the re-listing must DROP who is gone), re-listing that fails twice, failing "
+        "first listing; boot-shutdown-systematic: Shutdown with events in flight, while "
+        "listing again, before the watch is registered, before the start returned; boot-random: 140 (thorough N) random action "
+        "sequences of 6-25 (mutations over 4 node ids incl. the node itself, evaluate / deliver / fail the listing, register the watch, "
+        "deliver 0-9 events, end the stream, compact, stream-end + compaction + re-listing bursts, shut down), 20% as a client, some followed by an ordinary life; direct: etcd.Node round trips and self-cluster "
         "topologies; stress-measurement: 3 (thorough 12) runs of one updater alternating two views against 6 readers. "
-        "Non-trivial = a publication with >= 2 members caused by a watch response, or an own state change "
+        "Non-trivial = a publication with >= 2 members caused by a watch response or a scripted life, or an own state change "
         "(stress: the two views give different answers); distinct = distinct op sequences.")
 TRUSTED_BASE = [
     "Coq 8.16.1 kernel + vm_compute (case evaluation, Examples); no native_compute",
-    "hand translation etcd_provider.go (StartMember order, fetchNodes result, updateNodes/updateNodesWithSelf, handleWatchResponse, "
-    "updateNodesWithChanges, _keepWatching, the re-watch loop of startWatching, UpdateClusterState, registerService/keepAliveForever "
-    "re-registration, Shutdown, createClusterTopologyEvent), node.go, cluster.go (InitSelf/makeFullNameServices/BuildSelfClusterTopology) "
+    "hand translation etcd_provider.go (StartMember / StartClient order, fetchNodes result, updateNodes/updateNodesWithSelf, handleWatchResponse, "
+    "updateNodesWithChanges, _keepWatching, the re-watch loop of startWatching with the start revision of keepWatching (p.revision+1; p.revision = "
+    "listing revision, then ModRevision of the last event handled), listAgain after a compaction error, UpdateClusterState, "
+    "registerService/keepAliveForever re-registration, Shutdown, createClusterTopologyEvent), node.go, cluster.go (InitSelf/makeFullNameServices/BuildSelfClusterTopology) "
     "and clusterservices.go + the getters of utils.go -> C08/Model.v, measured by this correspondence run",
     "verif-tagged exports in node/cluster/clusterproviders/etcd: verif_export_client.go (VerifNewProviderWithClient: real NewWithConfig, then the "
     "client is replaced by &clientv3.Client{KV,Watcher,Lease} supplied by the harness and the lease id is preset; VerifSetRetryInterval); "
@@ -33,11 +45,19 @@ TRUSTED_BASE = [
     "writes to (an empty response after each group of responses is the barrier), KeepAlive hands out a channel, Put/Delete/Revoke are recorded. "
     "It has none of etcd's semantics: that a lease expiry produces a DELETE, that a re-registration produces a PUT, revision continuity "
     "between two watches are inputs chosen by the generator, not consequences",
+    "the SCRIPTED stand-in (harness/c08/boot.go, model: Model.v bstep) DOES carry a piece of etcd's semantics, taken from the clientv3 "
+    "documentation / client source (watch.go: 'a current revision watch must resume at the store revision') and not checked against a server: "
+    "a prefix Get answers the key space at its header revision; a Watch delivers exactly the events from its start revision on, in order; "
+    "without a start revision it starts right after the revision current when the SERVER registers it; a start revision below the compaction "
+    "revision is answered with a compaction error (CompactRevision != 0, Canceled); events carry ModRevision, the response header carries the "
+    "store's revision (ahead of the last event of a fragment); events already sent are not affected by a later compaction. The node's own "
+    "Put / Delete are recorded but do not enter the scripted key space (an echo is a mutation of the script)",
+    "quiescence detection of the scripted driver: before and after every action it waits until every goroutine whose stack shows a frame of "
+    "the provider package is blocked on a channel (runtime.Stack of all goroutines); 'no request pending' is read off after that",
     "NEEDS A LIVE ETCD, not run: clientv3.New's connection and NewWithConfig's error return; newLeaseID (clientv3.NewLease(p.client).Grant goes "
     "through the client's gRPC connection - the lease id is preset instead) and with it the lease<=0 branches of registerService/keepAliveForever; "
-    "real lease keep-alive timing/expiry; what a watch re-opened WITHOUT a start revision misses (keepWatching passes no WithRev although p.revision "
-    "is tracked: events between two watches are not delivered - outside 'events delivered by the watch', reported as an observation)",
-    "not run although offline-capable: StartClient (client mode, never called by the node's ClusterModule), the debugBadLease/debugShowEvent test "
+    "real lease keep-alive timing/expiry",
+    "not run although offline-capable: the debugBadLease/debugShowEvent test "
     "switches, newTestProvider, setLeaseID/newContext (unused), StartMember's and Shutdown's returns when the fake Put/Delete of the node's own key fails, "
     "keepAliveForever's `resp == nil` branch (it dereferences the nil response in its error message and would panic; the etcd client closes the channel "
     "instead of sending nil), unreachable error returns (getNodeID, Serialize)",
@@ -53,17 +73,31 @@ ASSUMPTIONS = [
     "conformance of discovery data (theorem guard): the value stored under key .../k is the record of node k and registered records have alive=true "
     "(what the node itself registers satisfies it: C08_registration_conforms, and the harness checks the real Put); "
     "non-conforming events are still run against the model but not against the property",
-    "member mode (StartMember); StartClient is not modelled",
-    "an error response or a closed watch channel is followed by a new watch on the same member map (modelled and run); events the new watch does not deliver are not part of the history",
+    "REPAIRED code: the model of the scripted lives is /repo + hooks/C08-fix-watch-from-listing-revision.patch (F23: a Watch without start "
+    "revision lost what happened between listing and watch, and between two watches; C08_F23_old_code_refuted). On a tree without that patch "
+    "exactly the schedules with a mutation in such a gap are reported (known_findings signature C08:F23)",
+    "client mode (StartClient): the statement is about all OTHER nodes; what sits under the client's own id is outside it (the fold never touches that slot)",
+    "ordinary (unscripted) lives: an error response or a closed watch channel is followed by a new watch on the same member map; there the events a watch "
+    "delivers are inputs of the generator. In scripted lives they are consequences of the key space's history and of the start revision the provider asks for",
+    "scripted lives: the node's own state does not change and its lease is not lost during them (both are covered by the ordinary lives); a "
+    "compaction only matters when a watch is registered; Shutdown is only possible once the start call has returned (before that the action is a no-op); "
+    "after a re-listing that completes after Shutdown the loop calls Watch once more on the cancelled context - the stand-in closes that stream at once, as the real client does; "
+    "the schedule granularity is one request / response of the etcd client (what happens "
+    "between two calls of the provider is atomic)",
     "node ids, service types/names, states and addresses are tokens mapped injectively to strings / host:port; node ids contain no '/'; node ids are single digits in the harness (canonical order of published lists)",
     "all queries and the updater act on one ClusterServices; a single query = one getter call (a caller chaining two getters is not covered, see C08_composite_can_mix)",
 ]
-TECHNIQUE = ("Coq proof (batch fold refines the per-event key-space semantics via a changes-map invariant, extended to own state changes and re-watches; index "
+TECHNIQUE = ("Coq proof (batch fold refines the per-event key-space semantics via a changes-map invariant, extended to own state changes and re-watches; a small-step "
+             "machine provider x scripted key space with revisions under an arbitrary schedule, invariant 'member table = key space at the position seen, every "
+             "requested/registered watch continues exactly there, a listing in flight is not older', and an order-agnostic property monitor proved to accept it; index "
              "construction equals list comprehensions; laws of the first/random/PID getters; interleaving model with a per-reference view invariant; the "
              "executable monitor is proved to accept every model run) + differential correspondence against the real StartMember / watch loop / keep-alive "
              "loop / Shutdown on a stand-in etcd client, the real Cluster + ClusterServices + package-level getters + stress measurement")
 LEVEL_TEXT = ("Machine-checked Coq theorems, unbounded: for every listing, event list, batching, own state change and re-watch the published member map "
-              "equals the implied set incl. the node itself with its CURRENT state (after repairing F9); per-type / working / name / member indexes and the "
+              "equals the implied set incl. the node itself with its CURRENT state (after repairing F9); for EVERY schedule of a whole life (listing evaluated / "
+              "delivered, mutations in between, watch registration, fragments, stream failures, compaction + re-listing, failing listings, Shutdown with events in "
+              "flight; member and client) the published directory is the key space at the position the provider has seen, that position only grows, no event is "
+              "lost or repeated, the node itself is in every publication, and a drained watch means directory = CURRENT membership (after repairing F23); per-type / working / name / member indexes and the "
               "derived getters equal their specifications for every member list; every single-reference query under every interleaving is answered from one "
               "published view. The model is tied to the Go code by running both on the same histories each run; reader atomicity on the real code is only measured.")
 
@@ -73,8 +107,91 @@ def extra_coverage(cases):
     runs = [c for c in cases if c.get("kind") == "stress-measurement"]
     ok = sum(1 for c in runs if c["obs"] == [{"BStress": [True]}])
     pubs = sum(1 for c in cases for o in c["obs"] if isinstance(o, dict) and "BPub" in o)
-    return {"measurement_reader_atomicity": {
+    lives = [o["BBoot"][0] for c in cases for o in c["obs"] if isinstance(o, dict) and "BBoot" in o]
+    xn = lambda x: x if isinstance(x, str) else next(iter(x))
+    boot = {"scripted_lives": len(lives),
+            "publications_checked_in_scripted_lives": sum(1 for l in lives for x in l if xn(x) in ("XStart", "XPub")),
+            "watch_registrations": sum(1 for l in lives for x in l if xn(x) == "XWReg"),
+            "compaction_errors_followed_by_a_new_listing": sum(1 for l in lives for x in l if xn(x) == "XWComp"),
+            "shutdowns_inside_a_script": sum(1 for l in lives for x in l if xn(x) == "XDown")}
+    return {"scripted_lives": boot,"measurement_reader_atomicity": {
                 "label": "measurement, not proof: updater alternating two complete views (400 rounds) against 6 readers "
                          "calling every getter; each answer must be one an entire view gives",
                 "stress_runs": len(runs), "stress_runs_all_answers_from_one_view": ok},
             "publications_checked": pubs}
+
+
+def _chunks(n):
+    """(start, length) of the pieces to try to remove from a list of n elements, big pieces first"""
+    out, size = [], n // 2
+    while size >= 1:
+        out += [(i, size) for i in range(0, n, size)]
+        size //= 2
+    return out
+
+
+def shrink_candidates(ops):
+    """smaller op lists: whole ops removed, then actions removed from the script of a scripted life
+    (an action that is not possible is a no-op, so every sub-script is a valid schedule)"""
+    if not isinstance(ops, list):
+        return []
+    cands = []
+    if len(ops) >= 2:
+        for i, k in _chunks(len(ops)):
+            c = ops[:i] + ops[i + k:]
+            if c and c not in cands:
+                cands.append(c)
+    for j, o in enumerate(ops):
+        if isinstance(o, dict) and "OBoot" in o:
+            me, mode, acts = o["OBoot"]
+            for i, k in _chunks(len(acts)):
+                c = ops[:j] + [{"OBoot": [me, mode, acts[:i] + acts[i + k:]]}] + ops[j + 1:]
+                if c not in cands:
+                    cands.append(c)
+    return cands
+
+
+def _name(t):
+    return t if isinstance(t, str) else next(iter(t))
+
+
+def finding_signature(case):
+    """F23 (events between the listing and the registration of the watch, or between two watches, are
+    never delivered: Watch without a start revision) is repaired by
+    hooks/C08-fix-watch-from-listing-revision.patch and the model is the REPAIRED code.  Until that patch
+    is in /repo an `open` known_findings entry with signature "C08:F23" keeps the unchanged tree passing.
+    It matches a history only if in every scripted life every registered watch started exactly at "now"
+    (XWReg start = current revision + 1, the unrepaired code's request), at least one of them thereby
+    skipped revisions the provider had not been shown, and no watch was registered BEFORE the first
+    listing was delivered (so watch-first changes are never hidden by it)."""
+    try:
+        hit = False
+        for o, b in zip(case["ops"], case["obs"]):
+            if not (isinstance(o, dict) and "OBoot" in o and isinstance(b, dict) and "BBoot" in b):
+                continue
+            acts, xs = o["OBoot"][2], b["BBoot"][0]
+            if len(acts) != len(xs):
+                return None
+            rev, seen, nxt, evald = 1, None, None, None   # store revision, shown to the provider, watch, listing
+            for a, x in zip(acts, xs):
+                an, xn = _name(a), _name(x)
+                if an == "AMut":
+                    rev += 1
+                elif an == "AGetEval" and xn == "XAck":
+                    evald = rev
+                elif an == "AGetResp" and xn in ("XStart", "XPub"):
+                    seen = max(seen or 0, evald or 0)
+                elif an == "AWatch" and xn == "XWReg":
+                    start = x["XWReg"][0]
+                    if seen is None or start != rev + 1:
+                        return None
+                    if start > seen + 1:
+                        hit = True
+                    nxt = start
+                elif an == "ADeliver" and xn == "XPub" and nxt is not None:
+                    n = min(a["ADeliver"][0], rev - nxt + 1)
+                    nxt += n
+                    seen = max(seen or 0, nxt - 1)
+        return "C08:F23" if hit else None
+    except Exception:
+        return None
